@@ -1,4 +1,4 @@
-"""C08 -- source-annotated syntax tree (VGC + RCA rules R08.1-R08.11)."""
+"""C08 -- source-annotated syntax tree (VGC + RCA rules R08.1-R08.12)."""
 from __future__ import annotations
 
 import ast
@@ -23,6 +23,7 @@ EXPLANATION = (
     "included) and kw_defaults with kwonlyargs.  R08.8 (=R14.6): the line table that turns the interpreter's line numbers into offsets breaks lines at '\\n' only.  Token search, parenthesis attribution and write-back equality are not decided."
     ' R08.10: every forward search of the token source starts at the cursor self.offset.'
 )
+EXPLANATION += ' R08.12: the comment test of the token source looks at the LAST `#` before the token.'
 EXPLANATION += ' R08.2 is per branch for dispatching handlers: each method the node is handed to covers every field but those the dispatch test looks at.'
 EXPLANATION += ' R08.11: a `col_offset`/`end_col_offset` of an AST node (UTF-8 bytes) reaches a character offset only through codeanalyze.column_to_offset; it is otherwise only compared, or is the start column of a node tested to be a statement.'
 ASSUMPTIONS = [
@@ -77,6 +78,7 @@ def check(ctx, res) -> None:
 
     column_to_offset_anchor(ctx, res, "R08.11")
     byte_column_rule(ctx, res, "R08.11", ("rope.refactor.patchedast",), rest=True)
+    _comment_test_rule(ctx, res)
 
 
 def _cursor_rule(ctx, res) -> None:
@@ -393,3 +395,30 @@ def _fstring_family_rule(ctx, res) -> None:
                     "the ordinary consumer, which takes a '#' in the literal text before the field for a comment start (f\"issue #{n}\"): annotating fails "
                     "with MismatchedTokenError or regions are taken from a later line", function=g.qualname)
     res.floor("R08.9", "f-string selections in the token loop", n, 1)
+
+
+def _comment_test_rule(ctx, res) -> None:
+    """R08.12: whether a found token lies in a comment is decided by the LAST `#` between the cursor and the token: the token is
+    comment text exactly when no line break follows that `#`.  A search for the FIRST `#` answers for some earlier comment: with
+    two comments between two tokens (`# a` / `# not except here` / `except E:`) the line break after the first one makes the
+    word in the second look like code, and the node's region starts inside the comment.  In the comment test of the token
+    source every search for the character `#` is a last-occurrence search (`rindex` / `rfind`)."""
+    idx = ctx.idx
+    src = idx.need_class(SOURCE)
+    m = src.methods.get("_good_token")
+    if m is None:
+        # by role: the method that looks for "#" and for a line break between two offsets
+        m = next((x for x in src.methods.values() if any(const_str(a) == "#" for c in calls_in(x.node) for a in c.args)
+                  and any(const_str(a) == "\n" for c in calls_in(x.node) for a in c.args)), None)
+    if m is None:
+        raise AnalysisError("anchor=_Source: the comment test of found tokens not found")
+    searches = [c for c in calls_in(m.node) if isinstance(c.func, ast.Attribute) and c.func.attr in ("index", "find", "rindex", "rfind") and c.args and const_str(c.args[0]) == "#"]
+    if not searches:
+        raise AnalysisError("anchor=_Source._good_token: no search for '#'")
+    for k, c in enumerate(searches, 1):
+        ok = c.func.attr in ("rindex", "rfind")
+        res.add("R08.12", f"_Source.{m.name}|last-hash-decides#{k}", ok, f"{m.unit.rel}:{c.lineno}",
+                "the comment test looks at the last `#` before the token" if ok else
+                f"`{ast.unparse(c)[:60]}` finds the FIRST `#` between the cursor and the token: when an earlier comment line lies in between, the line break after it makes a "
+                "word inside a later comment pass for code -- `except` / `finally` / an argument name mentioned in a comment gets the node's region, which then "
+                "disagrees with the interpreter's position (or the annotation raises MismatchedTokenError)", function=m.qualname)
